@@ -481,6 +481,27 @@ func (e *Engine) verifyFunc(fc *FuncContract) []*Oblig {
 		}
 		v.replay = ri
 	}
+	if lit := e.litOf[full]; lit != nil {
+		// a function literal verified on its own: the variables it captures are unknown but FIXED at
+		// entry (so that old(...) and the body talk about the same values)
+		seen := map[types.Object]bool{}
+		ast.Inspect(lit.Body, func(n ast.Node) bool {
+			id, ok := n.(*ast.Ident)
+			if !ok {
+				return true
+			}
+			obj, ok := pkg.TypesInfo.Uses[id].(*types.Var)
+			if !ok || obj.IsField() || seen[obj] || obj.Pkg() == nil || obj.Parent() == obj.Pkg().Scope() {
+				return true
+			}
+			if obj.Pos() >= lit.Pos() && obj.Pos() <= lit.End() {
+				return true
+			}
+			seen[obj] = true
+			v.setVar(st, obj, st.freshVal(obj.Name(), obj.Type()))
+			return true
+		})
+	}
 	v.initLog(st)
 	v.checkNoEscape()
 	v.checkInterruptible()
@@ -495,6 +516,14 @@ func (e *Engine) verifyFunc(fc *FuncContract) []*Oblig {
 			continue
 		}
 		st.assume(val.S)
+	}
+	for _, cl := range v.maintainsClauses(fc) {
+		// a literal's closure invariant is assumed at its entry (and checked at every return)
+		if val, err := v.spec(st, cl.Expr, sc); err == nil {
+			st.assume(val.S)
+		} else {
+			v.specError(cl, err)
+		}
 	}
 	v.applyAt(st, 0, sc)
 	for _, names := range fc.Extra["uses"] {
@@ -702,7 +731,7 @@ func (v *FnV) scanBoxed(body ast.Node, info *types.Info) {
 					sig := fn.Type().(*types.Signature)
 					if sig.Recv() != nil {
 						if _, ptr := sig.Recv().Type().(*types.Pointer); ptr {
-							if _, isPtr := s.Recv().Underlying().(*types.Pointer); !isPtr {
+							if _, isPtr := s.Recv().Underlying().(*types.Pointer); !isPtr && !throughPointer(sel.X, info) {
 								if id := rootIdent(sel.X); id != nil {
 									if obj, ok := info.Uses[id].(*types.Var); ok && !obj.IsField() && obj.Pkg() != nil && obj.Parent() != obj.Pkg().Scope() {
 										v.boxed[obj] = true
@@ -1810,8 +1839,16 @@ func (v *FnV) loopCore(st *State, node ast.Stmt, label string, modified []ast.No
 			st.havocAllHeaps()
 		}
 	}
-	if calls && st.ghost != nil && v.loopMayLog(modified) {
-		v.havocLog(st)
+	if st.ghost != nil {
+		special := false // kinds that are not calls (go statements, map writes, appends): any loop may log them
+		for _, k := range v.logKinds {
+			if k == "go" || k == "mapstore" || k == "mapdelete" || strings.HasPrefix(k, "append:") {
+				special = true
+			}
+		}
+		if special || (calls && v.loopMayLog(modified)) {
+			v.havocLog(st)
+		}
 	}
 	assumeInvs(st)
 	base := len(st.items)
